@@ -2,6 +2,7 @@ package main
 
 import (
 	"fmt"
+	"math/rand"
 	"os"
 	"path/filepath"
 	"sort"
@@ -50,7 +51,7 @@ type reproCase struct {
 func checkC03(c *Ctx) {
 	c.SetRule("per (program, config): a first build in a private copy of a std-warm cache gives the reference sha256; then the user packages are re-obfuscated on byte-identical source K times by deleting exactly the cache entries that build created (entry-diff deletion: " +
 		"every repetition re-runs garble's transformation with fresh map iteration orders and process schedules), varying one more axis per repetition: -p 1 / -p 3, the tree copied to another absolute path, TMPDIR inside the tree, a random half of the entries deleted (partially filled caches); " +
-		"additionally two independent garble-cold builds (std re-obfuscated, different boxes) must give the same sha256. Programs: feature-composed multi-package programs (asm, generics, linkname, ...), a literal-heavy program and control-flow programs. " +
+		"additionally two independent garble-cold builds (std re-obfuscated, different boxes) must give the same sha256. Programs: feature-composed multi-package programs (asm, generics, linkname, ...), a literal-heavy program, a reflection program (18 reflected struct types in two packages that share their type and field names, so the injected name table has many entries with equal original names and equally long obfuscated names) and control-flow programs. " +
 		"distinct_nontrivial = distinct (program, config, axis, repetition) comparisons in which the rebuild actually re-ran compile actions for obfuscated packages (hook toolexec.begin count > 0).")
 	c.Assume("the clock cannot be set in this sandbox: 'on the clock' is only exercised by builds at different times", "same toolchain, garble binary and target platform throughout")
 	g := buildGarble("", false)
@@ -74,6 +75,14 @@ func checkC03(c *Ctx) {
 			cfgs = []Config{K2, K23, K5}
 		}
 		cases = append(cases, reproCase{"literals", p, cfgs})
+	}
+	{
+		p := genReflSameProg(subRand(c.Seed, "c03refl", c.Tier))
+		cfgs := []Config{K0}
+		if !c.Quick() {
+			cfgs = []Config{K0, K3, K5}
+		}
+		cases = append(cases, reproCase{"reflection", p, cfgs})
 	}
 	// Parameters without block_splits (whose random split points often make garble reject the
 	// build) so that control-flow builds actually succeed and can be compared.
@@ -262,6 +271,32 @@ func checkC03(c *Ctx) {
 		}
 	}
 	_ = time.Second
+}
+
+// genReflSameProg: many reflected struct types (in two packages) whose fields and types share
+// their original names: the injected name table then has many entries with equal original names
+// and, by pigeonhole over the 6..12 hash lengths, equally long obfuscated names.
+func genReflSameProg(r *rand.Rand) *Prog {
+	mod := "zqreprorefl.example.com/r"
+	s := randAlnum(r, 5)
+	third := []string{"int", "int8", "int16", "int32", "int64", "uint", "uint8", "uint16", "uint32", "uint64", "float32", "float64", "string", "bool", "[]int", "[2]int", "map[string]int", "*int"}
+	r.Shuffle(len(third), func(i, j int) { third[i], third[j] = third[j], third[i] })
+	files := map[string]string{"go.mod": "module " + mod + "\n\ngo 1.26\n"}
+	var mainCalls strings.Builder
+	for pi, pkg := range []string{"zqra", "zqrb"} {
+		var b, all strings.Builder
+		fmt.Fprintf(&b, "package %s\n\nimport (\n\t\"encoding/json\"\n\t\"reflect\"\n)\n\n", pkg)
+		for i := 0; i < 9; i++ {
+			// the same type names in both packages, the same field names in every struct
+			fmt.Fprintf(&b, "type ZqRec%s%d struct {\n\tZqID%s   int\n\tZqName%s string\n\tZqX%s    %s\n}\n\n", s, i, s, s, s, third[pi*9+i])
+			fmt.Fprintf(&all, "\t\tZqRec%s%d{ZqID%s: n + %d, ZqName%s: \"n\"},\n", s, i, s, i, s)
+		}
+		fmt.Fprintf(&b, "//go:noinline\nfunc ZqDump(n int) string {\n\tout := \"\"\n\tfor _, v := range []any{\n%s\t} {\n\t\tj, _ := json.Marshal(v)\n\t\tt := reflect.TypeOf(v)\n\t\tout += t.Name() + \" \" + t.Field(0).Name + \" \" + t.Field(2).Name + \" \" + string(j) + \"\\n\"\n\t}\n\treturn out\n}\n", all.String())
+		files[pkg+"/"+pkg+".go"] = b.String()
+		fmt.Fprintf(&mainCalls, "\tfmt.Print(%s.ZqDump(len(os.Args)))\n", pkg)
+	}
+	files["main.go"] = "package main\n\nimport (\n\t\"fmt\"\n\t\"os\"\n\n\t\"" + mod + "/zqra\"\n\t\"" + mod + "/zqrb\"\n)\n\nfunc main() {\n" + mainCalls.String() + "}\n"
+	return &Prog{Module: mod, Files: files}
 }
 
 // cfgClass names the obfuscation features of a config for class keys.
